@@ -33,7 +33,10 @@ class Node:
 
     @property
     def lineno(self):
-        return getattr(self.ast, "lineno", None)
+        ln = getattr(self.ast, "lineno", None)
+        if ln is None and isinstance(self.ast, ast.withitem):
+            ln = getattr(self.ast.context_expr, "lineno", None)
+        return ln
 
     def __repr__(self):
         t = ""
